@@ -229,6 +229,11 @@ def c06_programs(seed, tier):
             if kind != "visual":
                 reps.insert(0, rep("visual", 77, salt=9, mask=5))
             out.append(prog(f"image_{kind}_{mask}", [new(), pc(small_protos()[0], 3), image(reps), blob(5), pc(small_protos()[1], 2, guid="pc2"), FIN]))
+    # blobs added between two finalize calls, with an XML that grows: the second XML must not land on them
+    for grow in (0, 300, 1500, 4000):
+        out.append(prog(f"blob_between_finalizes_{grow}", [new("g"), blob(10, 1), FIN, blob(50, 2), {"op": "coord", "v": "C" * grow}, FIN]))
+        out.append(prog(f"imageblob_between_finalizes_{grow}", [new("g"), pc(small_protos()[0], 2), FIN, blob(700, 3), {"op": "coord", "v": "D" * grow},
+                                                                FIN, image([rep("visual", 90, salt=4, mask=20)]), FIN]))
     return out
 
 
@@ -332,6 +337,28 @@ def c10_programs(seed, tier):
     for bad in ("", "xmlfoo", "a b", "ä"):
         one(f"ext_second_badname_{len(out)}", [X, Y, Z, rec("fine", "int", 0, 9, ns="ext"), rec(bad, "int", 0, 9, ns="ext")], exts=("ext",), namesok=False)
         one(f"ext_third_badname_{len(out)}", [X, Y, Z, rec("a", "int", 0, 9, ns="ext"), rec("b", "single", ns="ext2"), rec(bad, "int", 0, 9, ns="ext")], exts=("ext", "ext2"), namesok=False)
+    # names no XML name can start with (digit, dash): written as they are they make the file ill-formed
+    for bad in ("0129", "-a", "9", "-", "0ext"):
+        one(f"ext_badstart_name_{len(out)}", [X, Y, Z, rec(bad, "int", 0, 9, ns="ext")], exts=("ext",), namesok=False)
+        out.append(prog(f"ext_badstart_ns_{len(out)}", [new(), {"op": "ext", "ns": bad, "url": "http://x", "nameok": False},
+                                                        pc([X, Y, Z, rec("foo", "int", 0, 9, ns=bad)], pts=[], namesok=False), FIN]))
+    for fine in ("a-", "_a", "a0", "_"):
+        one(f"ext_finestart_{len(out)}", [X, Y, Z, rec(fine, "int", 0, 9, ns="ext")], exts=("ext",))
+    # integer ranges whose maximum lies below the minimum: no value fits; accepted or not, a finalized file must open
+    one("range_inverted_int", [X, Y, Z, rec("intensity", "int", 10, 0)], n=0)
+    one("range_inverted_sint", [X, Y, Z, rec("intensity", "sint", 10, 0, scale=0.5, offset=0.0)], n=0)
+    one("range_inverted_int_first", [rec("rowIndex", "int", 1, -1), X, Y, Z], n=0)
+    one("range_inverted_int_point", [X, Y, Z, rec("intensity", "int", 10, 0)], pts=[[v_f32(1), v_f32(2), v_f32(3), v_int(5)]])
+    # finalize() twice on one point cloud / image writer: the second call must not add the object once more
+    out.append(prog("pc_finalize_twice", [new(), pc([X, Y, Z, inten], pts=[default_point([X, Y, Z, inten], k) for k in range(3)], end="finalize_twice"), FIN]))
+    out.append(prog("pc_finalize_twice_empty", [new(), pc([X, Y, Z], pts=[], end="finalize_twice"), pc([X, Y, Z], pts=[default_point([X, Y, Z], 1)], guid="second"), FIN]))
+    out.append(prog("im_finalize_twice", [new(), image([rep("visual", 20, mask=4)], end="finalize_twice"), FIN]))
+    # characters XML cannot represent (also the two non-characters at the end of the BMP): refused, or the file reads back
+    for i, ch in enumerate(("\x01", "\ufffe", "\uffff", "a\x0bb")):
+        out.append(prog(f"nonxml_c10_{i}", [new("g"), {"op": "coord", "v": "c" + ch}, pc([X, Y, Z], pts=[default_point([X, Y, Z], 1)]), FIN], nonxml=True))
+    # a caller's XML transformer that makes the XML larger than the reader accepts: refused, or the file opens
+    out.append(prog("custom_big_xml_11MB", [new("g"), pc([X, Y, Z], pts=[default_point([X, Y, Z], 1)]),
+                                            {"op": "finalize", "xml_splice": [[1 << 30, "<!--" + "x" * (11 << 20) + "-->"]]}]))
     one("ext_two_ok", [X, Y, Z, rec("a", "int", 0, 9, ns="ext"), rec("b", "double", ns="ext"), rec("c", "int", 0, 1, ns="ext2")], exts=("ext", "ext2"))
     one("ext_second_unregistered", [X, Y, Z, rec("a", "int", 0, 9, ns="ext"), rec("b", "int", 0, 9, ns="nope")], exts=("ext",))
     one("ext_std_name", [X, Y, Z, rec("intensity", "int", 0, 9, ns="ext")], exts=("ext",))
